@@ -484,6 +484,23 @@ func c17Scenario(r *c17Runner, variant int) {
 	}
 	time.Sleep(time.Millisecond)
 	do("PlayerCall", margs{id: "p0"}, "between hands")
+	// the table was created with continue interval 0: the next hand is set up at once, and opens as soon as everybody
+	// has signalled (signals are repeated until they have been taken: the set-up may be a moment behind the status)
+	opened2 := false
+	for dl := time.Now().Add(6 * time.Second); time.Now().Before(dl) && !opened2; time.Sleep(2 * time.Millisecond) {
+		for _, id := range []string{"p0", "p1", "p2"} {
+			r.a.call("PlayerSettlementFinish", margs{id: id})
+		}
+		opened2 = r.table().State.GameCount == 2
+	}
+	if !opened2 {
+		r.fail = "hand 2 did not open within 6 s of hand 1 although the continue interval is 0 and everybody signalled"
+		return
+	}
+	if !r.waitFor("hand 2 waiting for readiness", evIs("ReadyRequested", "")) {
+		return
+	}
+	do("PlayerExtendActionDeadline", margs{id: "ghost", dur: 1}, "hand 2 open")
 	do("PauseTable", margs{}, "")
 	if variant == 0 {
 		do("CloseTable", margs{}, "")
@@ -538,8 +555,20 @@ func c17Forwarding(c *h.Ctx) {
 		if throughManager {
 			cb = mgrCounts.callbacks()
 		}
+		if throughManager {
+			// neighbours in the same manager, created before and after T with other options (and with none): what they
+			// were given must not reach T
+			before := pt.NewTableEngineOptions()
+			before.GameContinueInterval = 50
+			m.CreateTable(before, nil, c17Setting("neighbour-before"))
+		}
 		if _, err := m.CreateTable(opts, cb, c17Setting("T")); err != nil {
 			return nil, err
+		}
+		if throughManager {
+			after := &pt.TableEngineOptions{GameContinueInterval: 45, OpenGameTimeout: 30}
+			m.CreateTable(after, nil, c17Setting("neighbour-after"))
+			m.CreateTable(nil, nil, c17Setting("neighbour-default"))
 		}
 		eng, err := m.GetTableEngine("T")
 		if err != nil {
@@ -814,6 +843,26 @@ func c17NotFound(c *h.Ctx) {
 		c.Violate("C17/release-failed", err.Error(), nil)
 		return
 	}
+	// closed through its own engine first, then through the manager: the manager call still has the engine's effect
+	// (a second close publishes again) and the id is gone afterwards
+	m.CreateTable(opts, nil, c17Setting("closed-twice"))
+	if e2, err := m.GetTableEngine("closed-twice"); err == nil {
+		e2.CloseTable()
+		serial := e2.GetTable().UpdateSerial
+		if err := m.CloseTable("closed-twice"); err != nil {
+			c.Violate("C17/close-failed", "closing through the manager a table already closed through its engine: "+err.Error(), nil)
+			return
+		}
+		twin := pt.NewTableEngine(opts, pt.WithGameBackend(pt.NewNativeGameBackend()))
+		twin.CreateTable(c17Setting("closed-twice"))
+		twin.CloseTable()
+		s1 := twin.GetTable().UpdateSerial
+		twin.CloseTable()
+		if got, want := e2.GetTable().UpdateSerial-serial, twin.GetTable().UpdateSerial-s1; got != want {
+			c.Violate("C17/manager-call-differs-from-engine-call", fmt.Sprintf("CloseTable on an already closed table: through the manager the update serial moved by %d, on the engine itself by %d", got, want), nil)
+			return
+		}
+	}
 	// failed creations: too many players; and one that re-uses the id of the live table
 	bad := c17Setting("failed")
 	bad.Meta.TableMaxSeatCount = 2
@@ -829,7 +878,7 @@ func c17NotFound(c *h.Ctx) {
 		return
 	}
 	a := margs{id: "p0", chips: 10, seat: 4, ids: []string{"p0"}, gc: 1, parts: map[string]int{"p0": 0}, level: 2, sb: 1, bb: 2, dur: 1}
-	for _, id := range []string{"never", "closed", "released", "failed", ""} {
+	for _, id := range []string{"never", "closed", "released", "failed", "closed-twice", ""} {
 		if _, err := m.GetTableEngine(id); !errors.Is(err, pt.ErrManagerTableNotFound) {
 			c.Violate("C17/table-not-found-expected/GetTableEngine", fmt.Sprintf("GetTableEngine(%q) returned %v", id, err), nil)
 			return
@@ -840,7 +889,7 @@ func c17NotFound(c *h.Ctx) {
 				err = err0 // zero-value arguments (empty id, nil lists, nil map): the lookup must still come first
 			}
 			if !errors.Is(err, pt.ErrManagerTableNotFound) {
-				c.Violate("C17/table-not-found-expected/"+name, fmt.Sprintf("%s on table id %q (%s) returned %v instead of the table-not-found error", name, id, map[string]string{"never": "never created", "closed": "closed", "released": "released", "failed": "creation failed", "": "empty id"}[id], err), nil)
+				c.Violate("C17/table-not-found-expected/"+name, fmt.Sprintf("%s on table id %q (%s) returned %v instead of the table-not-found error", name, id, map[string]string{"never": "never created", "closed": "closed", "released": "released", "failed": "creation failed", "closed-twice": "closed through its engine, then through the manager", "": "empty id"}[id], err), nil)
 				return
 			}
 			c.Count("not_found_probes", 1)
